@@ -450,7 +450,7 @@ class Recorder:
 
 STD_KINDS = ["rejection", "flow", "cap", "resume-flow", "rejection-t", "resume-rejection", "cap-late", "flow-narrow",
              "rejection-ties", "cap-exact", "flow-ties", "rejection-cut", "resume-finished", "resume-cap",
-             "rejection-offset", "flow-offset"]
+             "rejection-offset", "flow-offset", "rejection-flat"]
 
 
 def std_config(kind, seed, nlive):
@@ -477,7 +477,7 @@ def run_standard(kind, seed, nlive, dims=2):
     from nessai.flowsampler import FlowSampler
     out = tempfile.mkdtemp(prefix="c05-std-")
     rec = Recorder()
-    sigma = 0.4 if kind == "flow-narrow" else 1.0
+    sigma = 0.4 if kind == "flow-narrow" else (60.0 if kind.endswith("-flat") else 1.0)
     ties = kind.endswith("-ties")
     cut = kind.endswith("-cut")
     offset = [-1500.0, 800.0, -5000.0][seed % 3] if kind.endswith("-offset") else 0.0
@@ -540,11 +540,15 @@ def run_standard(kind, seed, nlive, dims=2):
     return res
 
 
+KEY_NEG_INFO = "_NSIntegralState.increment:first-dead-point-information-skipped:negative-information:nan-uncertainty"
+
+
 def info_recursion(logLs, sched, mode):
     """the information H as `_NSIntegralState.increment` defines it (its recursion, skip rule included), evaluated at
     60 digits from the returned log-likelihoods and the live-count schedule alone"""
     M = c02.M()
     logZ, logw, info = M.ninf, M.mpf(0), M.mpf(0)
+    n_info, last = 1, M.ninf          # len(state.info), state.logLs[-1]
     for v, n in zip(logLs, sched):
         v = float(v)
         logL = M.ninf if v == -math.inf else M.mpf(v)
@@ -559,8 +563,13 @@ def info_recursion(logLs, sched, mode):
             hi, lo = (oldZ, Wt) if oldZ >= Wt else (Wt, oldZ)
             logZ = hi + M.log1p(M.exp(lo - hi))
         if oldZ != M.ninf and logZ != M.ninf and logL != M.ninf:
-            info = M.exp(Wt - logZ) * logL + M.exp(oldZ - logZ) * (info + oldZ) - logZ
+            prev = info
+            if n_info == 1 and last != M.ninf:
+                prev = last - oldZ        # the first point got no entry of its own (oldZ = -inf): log(L_1 / Z_1)
+            info = M.exp(Wt - logZ) * logL + M.exp(oldZ - logZ) * (prev + oldZ) - logZ
+            n_info += 1
         logw += logt
+        last = logL
     return info
 
 
@@ -676,7 +685,14 @@ def check_standard(ctx, res):
         round_h = 1e-15 * n * (float(np.max(np.abs(finite_ll))) ** 2 if len(finite_ll) else 0.0)
         tol_h = TOL * max(1.0, abs(float(H))) + round_h
         tol_e = TOL * max(1.0, abs(float(want_err)) if H >= 0 else 1.0) + (round_h / (2.0 * math.sqrt(float(H) * n)) if H > 0 else 0.0)
-        if not (math.isfinite(err) and H >= 0 and abs(M.mpf(err) - want_err) <= tol_e):
+        if math.isnan(err) and H >= 0:
+            # regression of the repaired defect F55: a recursion that drops the first dead point's own information yields the
+            # textbook H (>= 0, theorem C02.textbook_info_nonneg) plus p_1 log(1 - t_1) < 0 (C02.info_without_first_point);
+            # on a (nearly) flat likelihood it is negative and sqrt(H / nlive) is NaN (C02.info_without_first_point_can_be_negative)
+            ctx.oracle_fail(KEY_NEG_INFO, f"reported uncertainty is NaN (information reported {float(ns.information)!r}) although the "
+                            f"information of the returned samples is {float(H)!r} >= 0 (log-likelihood range "
+                            f"{float(np.ptp(finite_ll)) if len(finite_ll) else 0.0:.3g})", case)
+        elif not (math.isfinite(err) and H >= 0 and abs(M.mpf(err) - want_err) <= tol_e):
             ctx.oracle_fail(site + ":log_evidence_error-not-recomputable", f"reported uncertainty {err!r} but sqrt(H/nlive) "
                             f"recomputed from the returned samples is {float(want_err)!r}", case)
         info_real = float(ns.information)
@@ -687,7 +703,7 @@ def check_standard(ctx, res):
             exact_w = [c02.log_tok(tok) for tok in W]
             repeated_reads(ctx, site, case, ns, lambda o: o.state.log_posterior_weights, exactZ,
                            lambda z: close(z, exactZ),
-                           lambda e: math.isfinite(e) and H >= 0 and abs(M.mpf(e) - want_err) <= tol_e, exact_w)
+                           lambda e: math.isnan(e) if H < 0 else (math.isfinite(e) and abs(M.mpf(e) - want_err) <= tol_e), exact_w)
     # ---------------------------------------------------------------- (d) dictionary = file = sampler = FlowSampler
     checks = [
         ("log_evidence", same_number(d.get("log_evidence"), ns.log_evidence) and same_number(fs.log_evidence, ns.log_evidence)
